@@ -311,3 +311,19 @@ def c11(ctx):
     judge(ctx, "C11", vf.cat(ctx.path("vec.ndjson"), g1, r), what="clearsigned input vs ideal-signature rules")
     ctx.assumptions += ["OpenPGP signing, armor decoding and RFC 4880 canonicalisation by golang.org/x/crypto are ground "
                         "truth used to CLASSIFY damaged inputs (never to decide acceptance)"]
+
+
+# =========================================================================== build order (C19)
+@prop("C19", "C19Trace",
+      "TLC enumerates every build-dependency graph over 2 sources (each ordered pair labelled none / dep on the SECOND binary / "
+      "arch-restricted dep / dep only through a non-selected alternative / dep for another architecture / dep after a substvar / "
+      "fallback alternative) and over 3 sources (3 or 5 labels), spread over Build-Depends, -Arch and -Indep, rendered by the "
+      "specification as ordinary two-binary .dsc files (single-line and folded lists); plus seeded graphs over 1..12 sources "
+      "with 1..4 binaries whose rendering TLC re-checks. Each is ordered five times.")
+def c19(ctx):
+    t = ctx.tier
+    g1 = gen(ctx, "BuildOrderGen.tla", "BuildOrderGen_n2.cfg", ctx.path("n2.ndjson"), what="all 2-source graphs")
+    g2 = gen(ctx, "BuildOrderGen.tla", "BuildOrderGen_n3_%s.cfg" % t, ctx.path("n3.ndjson"), what="3-source graphs")
+    r = hgen(ctx, "C19", ctx.path("rand.ndjson"))
+    judge(ctx, "C19", vf.cat(ctx.path("vec.ndjson"), g1, g2, r), what="OrderDSCForBuild vs graph model", chunk=1500)
+    ctx.exhaustive = True
